@@ -30,8 +30,8 @@ FBStepCode(I, s) ==
                  RSub(s.x, RScal(I.tau, RAdd(Grad(I.h, s.x), AdjSum(I.Ls, s.v, Len(s.x))))))
       y  == RSub(RScal(Two, x1), x1)            \* y.lincomb(2.0, x, -1, x_old) with x_old is x
   IN  [x |-> x1,
-       v |-> [i \in 1..m |-> ProxConj(I.gs[i], I.sig[i],
-                               RAdd(s.v[i], RScal(I.sig[i], MatVec(I.Ls[i], y))))]]
+       v |-> [i \in 1..m |-> ProxConj(I.gs[i], I.sig[i],          \* tmp_2 = sigma[i] * (L[i](y) - grad_cc_l[i](v[i]))
+                               RAdd(s.v[i], RScal(I.sig[i], LArg(I, i, MatVec(I.Ls[i], y), s.v[i]))))]]
 
 IterStart(I, h) ==
   CASE I.solver = "cg"  -> LET s == CGInit(I, h.x) IN [x |-> s.x, r |-> s.r, p |-> s.p]
